@@ -337,6 +337,8 @@ type cliAttempt struct {
 	mismatch  bool
 	afterStop bool
 	resp      *http.Response
+	closed    chan struct{} // closed when the transport released (closed) this attempt's body
+	closeOnce sync.Once
 }
 
 type cliAttemptView struct {
@@ -351,15 +353,16 @@ type cliAttemptView struct {
 }
 
 type caseLog struct {
-	mu       sync.Mutex
-	spec     caseSpec
-	orig     []byte
-	srv      []*srvAttempt
-	cli      []*cliAttempt
-	stopped  bool       // the back-off returned Stop
-	bodyMu   sync.Mutex // serializes reads of request bodies (see countingBody.Read)
-	consumed int64      // bytes read from request bodies by all attempts so far
-	stray    int
+	mu          sync.Mutex
+	spec        caseSpec
+	orig        []byte
+	srv         []*srvAttempt
+	cli         []*cliAttempt
+	stopped     bool       // the back-off returned Stop
+	bodyMu      sync.Mutex // serializes reads of request bodies (see countingBody.Read)
+	consumed    int64      // bytes read from request bodies by all attempts so far
+	stray       int
+	lateRelease int // attempts whose body the transport had not released 3 s after RoundTrip failed
 }
 
 // countingBody observes what the body of one attempt yields.
@@ -424,7 +427,9 @@ func (c *countingBody) Close() error {
 	c.a.mu.Lock()
 	c.a.done = true
 	c.a.mu.Unlock()
-	return c.rc.Close()
+	err := c.rc.Close()
+	c.a.closeOnce.Do(func() { close(c.a.closed) })
+	return err
 }
 
 type recTransport struct {
@@ -437,6 +442,7 @@ func (rt *recTransport) RoundTrip(req *http.Request) (*http.Response, error) {
 	a := &cliAttempt{
 		Method: req.Method, URL: req.URL.String(), Header: req.Header.Clone(),
 		ContentLen: req.ContentLength, HasBody: req.Body != nil && req.Body != http.NoBody, SrvIndex: -1, shared: true,
+		closed: make(chan struct{}),
 	}
 	l.mu.Lock()
 	a.Index = len(l.cli)
@@ -448,6 +454,24 @@ func (rt *recTransport) RoundTrip(req *http.Request) (*http.Response, error) {
 		req2.Body = &countingBody{rc: req.Body, orig: l.orig, a: a, l: l}
 	}
 	resp, err := rt.base.RoundTrip(req2)
+	if a.HasBody {
+		// net/http may still be reading (and only later close) the body of an
+		// attempt in its write loop after RoundTrip has returned - after an error,
+		// but also after a response that arrived while the write loop was about
+		// to fetch the final EOF (bytes.Buffer.Read then resets the buffer). The helper
+		// under test goes on to touch the caller's reader right away
+		// (http.NewRequest calls Len() on it in the fallback path), which the
+		// race detector reports inside bytes.Buffer and which makes go test fail
+		// whatever the verdict. Hand control back only once the transport has
+		// released the body: a legal schedule, and the monitor keeps observing.
+		select {
+		case <-a.closed:
+		case <-time.After(3 * time.Second):
+			l.mu.Lock()
+			l.lateRelease++
+			l.mu.Unlock()
+		}
+	}
 	a.mu.Lock()
 	if err != nil {
 		a.Err = err.Error()
@@ -919,6 +943,7 @@ type outcome struct {
 	errKind     string
 	errText     string
 	stray       int
+	lateRelease int
 	wall        time.Duration
 	overlap     bool
 }
@@ -962,7 +987,7 @@ func TestC34(t *testing.T) {
 				res := w.runCase(cases[i])
 				viol, attempts, view := judge(res, w.srv.URL)
 				o := &outcome{spec: res.spec, viol: viol, attempts: attempts, srvAttempts: len(res.log.srv),
-					ok: res.ok, errKind: res.errKind, errText: res.errText, stray: res.log.stray, wall: res.wall}
+					ok: res.ok, errKind: res.errKind, errText: res.errText, stray: res.log.stray, lateRelease: res.log.lateRelease, wall: res.wall}
 				for _, v := range view {
 					o.overlap = o.overlap || v.BodyOverlap
 				}
@@ -1027,6 +1052,9 @@ func TestC34(t *testing.T) {
 		}
 		if o.stray > 0 {
 			run.Count("stray_requests", int64(o.stray))
+		}
+		if o.lateRelease > 0 {
+			run.Count("attempt_bodies_not_released_within_3s", int64(o.lateRelease))
 		}
 		if o.overlap {
 			run.Count("cases_where_retry_read_body_while_previous_attempt_still_read_it", 1)
